@@ -16,7 +16,7 @@ Open Scope bool_scope.
 Inductive err :=
 | ProtocolErr          (* wpull.errors.ProtocolError *)
 | NetworkErr           (* wpull.errors.NetworkError *)
-| ValueErr             (* a bare ValueError escaping the reader (no wpull error class) *)
+| ValueErr             (* a bare ValueError escaping the reader (no wpull error class); none is left in the current code *)
 | OutOfFuel.           (* artefact of the totalisation; excluded by theorem *)
 
 Record st := mkSt { cn : conn; recd : list N; closed : bool }.
@@ -83,7 +83,7 @@ Definition read_chunk_body (o : oracle) (left : N) (s : st) : res chunk_step :=
     Ok (CBData d (left - N.of_nat (length d))) s1
   else
     match st_readline s with
-    | (LineTooLong, _) => Err ValueErr                         (* not converted (F24) *)
+    | (LineTooLong, _) => Err ProtocolErr                      (* Connection.readline converts the ValueError *)
     | (Line l, s1) =>
         if (2 <? length l)%nat then Err ProtocolErr            (* 'Error reading newline after chunk.' *)
         else Ok (CBEnd l) s1
@@ -96,7 +96,7 @@ Fixpoint read_trailer (fuel : nat) (acc : list N) (s : st) : res (list N) :=
   | O => Err OutOfFuel
   | S f =>
       match st_readline s with
-      | (LineTooLong, _) => Err ValueErr                       (* not converted (F24) *)
+      | (LineTooLong, _) => Err ProtocolErr                    (* Connection.readline converts the ValueError *)
       | (Line l, s1) =>
           match bytes_strip l with
           | [] => Ok (acc ++ l) s1
